@@ -5,6 +5,9 @@ BASE = json.load(open('/root/.vp/BASELINE.json'))['cmd']
 ALL = ["C%02d" % i for i in range(1, 21)]
 # id -> (engine, technique, level text, level note, design ref)
 CHECKS = {
+ "C14": ("ring", "explicit-state BFS to fixpoint over abstract states of the real RingBuffer/PacketBuffer vs queue model",
+         "Every reachable abstract state (capacity, read position, length[, metadata shapes]) of the real RingBuffer<u32> (cap 0..=8 quick, 0..=24 thorough) and PacketBuffer<u32> (slots 0..=3 x bytes 0..=8 quick, 0..=4 x 0..=12 thorough) is visited; from each, every public operation with every argument 0..=cap+1 (callbacks that accept k or decline) runs on the real code and the queue model plus the complete physical image are compared after each transition - an inductive, exhaustive argument within the capacity bound.",
+         "Trusted: queue model; abstraction argument (code generic in T, never inspects elements); Debug image used as hook-free observation of read position/storage; documented-panic arguments excluded.", "2/C14"),
  "C15": ("asm", "explicit-state BFS to fixpoint over the real Assembler vs bitset reference",
          "Every state of the real Assembler reachable with add/remove_front/add_then_remove_front/clear over a bounded universe is visited (MAX=4: all states for N=12/16; MAX=32: all states for a small universe plus the d<=2/3 neighbourhood of the full 32-run comb) and the bitset oracle is evaluated on every transition; exhaustive within the stated universe, which is where merge/shift/limit logic lives.",
          "Trusted: the bitset reference model; bounds: universe size N, for MAX=32 depth around the comb.", "2/C15"),
